@@ -428,8 +428,10 @@ int stress(double seconds, bool poll_handler) {
       api->start_maintenance(True);
     else
       api->sync_user_data();
+    long in_round = 0;
     while (api->is_maintenance_mode()) {
       ++polls;
+      ++in_round;
       if (poll_handler)
         api->set_notification_handler(polls % 2 ? stress_notify2 : stress_notify, nullptr);
       RimeSessionId id = api->create_session();
@@ -441,7 +443,7 @@ int stress(double seconds, bool poll_handler) {
       } else {
         ++refused;
       }
-      if (polls % 7 == 0) {
+      if (in_round == 3 && rounds % 4 == 1) {
         // a second start while the first is running (the worker's exit window is hit by chance)
         next_results.assign({true, true, true});
         pop_installation_update = true;
